@@ -77,7 +77,7 @@ def setup_project(case, proj, R):
             elif h == "norecord":
                 r = proj.gwf(["clean", "--all", t["name"]])
                 if r.code != 0:
-                    raise hist.HarnessError("clean during setup failed: " + r.brief())
+                    raise hist.SubjectFailure("clean during setup failed: " + r.brief())
                 records.pop(t["name"], None)
         if changed:
             proj.write_desc(desc)
